@@ -391,25 +391,16 @@ class Family:
         res = run_opensmt(text, io=io, timeout=timeout, chunks=chunks, binary=binary, env=env2, extra_args=extra_args, cwd=cwd)
         dup = False
         try:
-            seen = {}
+            xs = []
             with open(hpath) as hf:
                 for line in hf:
-                    if not line.startswith('{"e":"frame"'):
-                        continue
-                    try:
-                        ev = json.loads(line)
-                    except Exception:
-                        continue
-                    # the same formula (after the solver's own simplification) inserted twice in one frame,
-                    # or in two frames: the per-frame lists are re-emitted on re-processing, so count per (idx,id)
-                    texts = [a["t"] for a in ev["asserted"]]
-                    key = (ev["idx"], ev["id"])
-                    seen[key] = texts
-                    if len(set(texts)) != len(texts):
-                        dup = True
-            allt = [t for k in seen for t in seen[k]]
-            if len(set(allt)) != len(allt):
-                dup = True
+                    if line.startswith('{"e":"insert"'):
+                        try:
+                            xs.append(json.loads(line)["x"])
+                        except Exception:
+                            pass
+            # the same term (after the constructors' simplification) inserted twice in this run
+            dup = len(set(xs)) != len(xs)
         except Exception:
             pass
         finally:
@@ -443,11 +434,11 @@ class Family:
         res = run["res"]
         segs, done, tail = split_output(res["out"], len(cmds))
         evs = [{"e": "Run", "sid": run["sid"], "cfg": run["cfg"], "kind": run["kind"], "io": run["io"],
-                "base": run["base"], "intl": run["intl"], "dup": bool(run.get("dup", False))}]
+                "base": run["base"], "intl": run["intl"], "dup": bool(run.get("dup", False)), "logic": G.logic_name(g.logic)}]
         if not run.get("wellformed", True):
             out = res["out"]
             diag = ("(error" in out) or ("syntax error" in out.lower()) or ("Syntax error" in out)
-            evs.append({"e": "Cmd", "c": "bad", "r": "error" if diag else "ok", "ci": 0, "must": "reject", "i": 1})
+            evs.append({"e": "Cmd", "c": "bad", "r": "error" if diag else "ok", "ci": 0, "must": "reject", "i": 1, "hasNamed": False})
             evs.append({"e": "Exit", "status": res["status"], "sig": res["sig"], "san": bool(res["san"]), "to": bool(res["to"]),
                         "pending": bool(run.get("has_check", False)), "outh": outhash(out), "nerr": 1 if diag else 0,
                         "synerr": True, "det": False})
@@ -503,7 +494,8 @@ class Family:
         return evs
 
     def _cmd_ev(self, cmd, r, k):
-        ev = {"e": "Cmd", "c": cmd["c"], "r": r, "ci": cmd.get("ci", 0), "must": cmd.get("must", ""), "i": k + 1}
+        ev = {"e": "Cmd", "c": cmd["c"], "r": r, "ci": cmd.get("ci", 0), "must": cmd.get("must", ""), "i": k + 1,
+              "hasNamed": bool(cmd.get("nm") or cmd.get("inner") or ":named" in cmd.get("text", ""))}
         c = cmd["c"]
         if c == "set-option":
             ev.update({"k": cmd["k"], "v": cmd["v"]})
@@ -595,7 +587,7 @@ class Family:
             ev["r"] = "val"
             full = mir.opts.get("fullcores") == "true" or cmd.get("full", False)
             ev["full"] = bool(full)
-            ev.update({"core": [], "fs": [], "h": [], "hm": [], "pok": True, "mon": False})
+            ev.update({"core": [], "fs": [], "fx": [], "h": [], "hm": [], "pok": True, "mon": False})
             try:
                 sx = read_all(seg)
                 items = sx[0] if sx else []
@@ -604,6 +596,17 @@ class Family:
                 if full:
                     fs = [parse_term(x, tb, sig_with_defs(sig, mir, tb), {}, BOOL) for x in items]
                     ev["fs"] = fs
+                    act = mir.active()
+                    if mir.mode == "unsat" and self._small(fs + act) and self._defs_small(mir) and len(fs) * len(act) <= 60:
+                        ev["mon"] = bool(mon)
+                        ev["h"] = self._hints_for(fs, mir.defs)
+                        ev["hm"] = [[] for _ in fs]
+                        for f in fs:
+                            row = []
+                            for a in dict.fromkeys(act):
+                                x = tb.app("xor", [f, a])
+                                row.append({"a": a, "x": x, "h": [] if f == a else self._hints_for([x], mir.defs)})
+                            ev["fx"].append(row)
                 else:
                     core = []
                     for x in items:
